@@ -84,6 +84,10 @@ class Check:
         if os.environ.get('VERIF_REPLAY'):
             os.makedirs(REPLAYS, exist_ok=True)
             target = os.path.join(REPLAYS, self.prop + '_replay_evidence.json')
+        elif os.environ.get('VERIF_REPO') and os.path.realpath(os.environ['VERIF_REPO']) != '/repo':
+            # a run against a scratch tree (seeded change under test) says nothing about /repo
+            os.makedirs(REPLAYS, exist_ok=True)
+            target = os.path.join(REPLAYS, self.prop + '_scratchrepo_evidence.json')
         with open(target, 'w') as fh:
             json.dump(ev, fh, indent=1, default=str)
         for line in self.known_printed:
